@@ -303,7 +303,12 @@ def judge(case, im, mo, sem_src, sem_flat):
     if len(flat["insts"]) != len(sem_src["src_devices"]):
         yield ("pred", {"why": f"{len(flat['insts'])} instances in the flat module, {len(sem_src['src_devices'])} leaf devices in the hierarchy"})
     if whole_signal(d) and mo.get("error") == "collision":
-        yield ("pred", {"why": "flattened wrongly: two different nets or leaves share one ':'-joined name, and flatten returned a module", "flat": flat})
+        # Two different nets or leaves share one ':'-joined name. The code at hand refuses such designs (df956a1); one that *names them
+        # apart* instead has flattened rightly, one that lets them fall together has not: judged free of names, by the shape of the nets —
+        # per net, which kinds of device terminals and which port bits are on it.
+        ok = sem_flat is not None and "ok" in sem_flat.get("pkg", {}) and "ok" in sem_src.get("src", {})
+        if not ok or net_shape(sem_flat["pkg"]["ok"], sem_flat["pkg_devices"]) != net_shape(sem_src["src"]["ok"], sem_src["src_devices"]):
+            yield ("pred", {"why": "flattened wrongly: two different nets or leaves share one ':'-joined name, and what flatten returned does not have the hierarchy's nets", "flat": flat})
         return
     if "export_error" in im:
         yield ("corr", f"the flat module does not export: {im['export_error'][-300:]}")
@@ -331,6 +336,24 @@ def judge(case, im, mo, sem_src, sem_flat):
             yield ("corr", "model says the module is flat already; implementation built a new one")
         elif mo.get("error") == "walk":
             yield ("corr", "model's walk fails, implementation returned a module")
+
+
+def net_shape(partition, devices):
+    """Name-free form of a leaf-level partition: per net the sorted list of (device kind, port, bit) of the terminals and (port, bit)
+    of the top-level port bits on it; the nets as a sorted multiset."""
+    import re
+    kind = {dv["path"]: dv["kind"] for dv in devices}
+    out = []
+    for cls in partition:
+        ds = []
+        for o in cls:
+            mt = re.fullmatch(r"(.*):([^:\[]+)\[(\d+)\]", o)
+            if mt and mt.group(1) in kind:
+                ds.append(f"T|{kind[mt.group(1)]}|{mt.group(2)}|{mt.group(3)}")
+            else:
+                ds.append("P|" + o)
+        out.append(sorted(ds))
+    return sorted(out)
 
 
 def impl_after(job):
